@@ -39,6 +39,16 @@ def mkFormatterLang (htmlDefaults : List PStr) (language : Option PStr) (fn : Na
     RegEntry :=
   mkFormatter htmlDefaults (formatterLanguage language == [120, 109, 108]) fn cdataArg
 
+/-- `Formatter.attribute_value(value)` (formatter.py:161-172, repaired): the substitution function, whatever object carries
+    the value — an attribute value is never CDATA -/
+def attributeValue (T : Tbl) (X : List (Nat × PStr)) (e : RegEntry) (s : PStr) : PStr :=
+  formatterSubstitute T X e none s
+
+/-- 4.13.0: `return self.substitute(value)` — when the value is a `NavigableString` object, `substitute` looks at *its*
+    parent (`valueParent`), so a string taken from a `<script>` stayed raw as an attribute value -/
+def attributeValueOld (T : Tbl) (X : List (Nat × PStr)) (e : RegEntry) (valueParent : Option PStr) (s : PStr) : PStr :=
+  formatterSubstitute T X e valueParent s
+
 /-- an attribute value as `_format_tag` meets it -/
 inductive AttrVal where
   /-- `None`: rendered as the bare key -/
